@@ -136,8 +136,10 @@ def structured_sweep(ctx, oracle_path, modes, fxp=True):
     every power of two and all-ones value, byte multiples, alternating bit patterns, small multipliers, each against a
     companion set (itself, its negative, neighbours, small numbers, range boundaries) - where special-case fast paths live."""
     from .. import e1
-    cfgs = [(16, REC.BN128, E.Structured(16))]
+    cfgs = [(16, REC.BN128, E.Structured(16, full=ctx.thorough))]
     if ctx.thorough:
-        cfgs += [(8, REC.BLS12_381, E.Structured(8)), (32, REC.CURVE25519, E.Structured(32))]
+        cfgs += [(8, REC.BLS12_381, E.Structured(8, full=True)), (32, REC.CURVE25519, E.Structured(32, full=True))]
     quick_modes = tuple(m for m in ("plain", "g0") if m in modes)      # live code and dead code (fast paths forget the guard)
-    e1.sweep(ctx, E.depth1_programs(include_fxp=fxp), cfgs, oracle_path, modes=modes if ctx.thorough else quick_modes)
+    if "c04" in oracle_path:
+        quick_modes = ("plain",)
+    e1.sweep(ctx, E.depth1_programs(include_fxp=fxp and ctx.thorough), cfgs, oracle_path, modes=modes if ctx.thorough else quick_modes)
